@@ -127,6 +127,12 @@ struct Tok {
 }
 
 fn build_token(t: &str) -> Option<Tok> {
+  let (h, c, sig) = token_parts(t)?;
+  Some(Tok { jwt: sign_compact(&h, &c, sig) })
+}
+
+/// protected header JSON, claims JSON, signing key
+pub(crate) fn token_parts(t: &str) -> Option<(String, String, u64)> {
   let m = kvc(t, ';', ':');
   // header
   let mut hdr = Map::new();
@@ -232,7 +238,7 @@ fn build_token(t: &str) -> Option<Tok> {
     cl.insert("vc".into(), Value::Object(vc));
     Value::Object(cl).to_string()
   };
-  Some(Tok { jwt: sign_compact(&Value::Object(hdr).to_string(), &claims_json, sig) })
+  Some((Value::Object(hdr).to_string(), claims_json, sig))
 }
 
 pub(crate) fn scope_of(t: &str) -> Option<Option<MethodScope>> {
@@ -248,7 +254,7 @@ pub(crate) fn scope_of(t: &str) -> Option<Option<MethodScope>> {
   })
 }
 
-fn build_opts(t: &str) -> Option<(JwtCredentialValidationOptions, FailFast)> {
+pub(crate) fn build_opts(t: &str) -> Option<(JwtCredentialValidationOptions, FailFast)> {
   let m = kvc(t, ';', ':');
   let mut v = JwsVerificationOptions::default();
   if let Some(n) = oi(&m, "n")? {
@@ -284,7 +290,7 @@ fn build_opts(t: &str) -> Option<(JwtCredentialValidationOptions, FailFast)> {
   Some((o, ff))
 }
 
-fn kind(e: &JwtValidationError) -> String {
+pub(crate) fn kind(e: &JwtValidationError) -> String {
   let s = format!("{:?}", e);
   match e {
     JwtValidationError::JwsDecodingError(_) if s.contains("invalid nonce value") => "nonce".into(),
@@ -332,7 +338,7 @@ fn kind(e: &JwtValidationError) -> String {
   }
 }
 
-fn show_cred(c: &identity_credential::credential::Credential) -> String {
+pub(crate) fn show_cred(c: &identity_credential::credential::Credential) -> String {
   use identity_core::convert::ToJson;
   let v: Value = serde_json::from_str(&c.to_json().unwrap_or_default()).unwrap_or(Value::Null);
   let o = v.as_object().cloned().unwrap_or_default();
